@@ -17,6 +17,7 @@ func init() {
 		ruleDef{"C11.R4", c11r4},
 		ruleDef{"C11.R5", c11r5},
 		ruleDef{"C11.R6", c11r6},
+		ruleDef{"C11.R7", c11r7},
 	)
 }
 
@@ -487,3 +488,62 @@ func bufferedOnce(c *Ctx, op chanOp) bool {
 }
 
 var _ = fmt.Sprint
+
+// onlyGuards: every guard of block b matches one of the allowed renderings; returns the offending guard.
+func onlyGuards(c *Ctx, b *ssa.BasicBlock, allowed ...string) string {
+	for _, g := range c.guardStrs(b) {
+		ok := false
+		for _, a := range allowed {
+			if g == a {
+				ok = true
+			}
+		}
+		if !ok {
+			return g
+		}
+	}
+	return ""
+}
+
+// R7: the h2 idle timer is re-armed whenever the connection becomes idle again.
+func c11r7(r *R) {
+	c := r.C
+	ph := c.Method("pkg/http2", "serverConn", "processHeaders")
+	cs := c.Method("pkg/http2", "serverConn", "closeStream")
+	r.need(ph != nil && cs != nil, "processHeaders/closeStream not found")
+	o := r.Ob("C11.R7", "idle-timer-rearmed:"+funcName(cs)).At(cs.Pos())
+	stops := 0
+	for _, fn := range c.FuncsIn("pkg/http2") {
+		if !strings.Contains(funcName(fn), "serverConn") {
+			continue
+		}
+		eachInstr(fn, func(i ssa.Instruction) {
+			if cc := callOf(i); cc != nil && cc.IsInvoke() && cc.Method.Name() == "Stop" && c.Expr(cc.Value) == "p0.idleTimer" {
+				if _, isDefer := i.(*ssa.Defer); !isDefer {
+					stops++
+					o.AtI(i)
+				}
+			}
+		})
+	}
+	o.Check(stops >= 1, "the serve loop no longer stops the idle timer when a stream opens (rule needs re-anchoring)")
+	var resets []ssa.Instruction
+	eachInstr(cs, func(i ssa.Instruction) {
+		if cc := callOf(i); cc != nil && cc.IsInvoke() && cc.Method.Name() == "Reset" && c.Expr(cc.Value) == "p0.idleTimer" {
+			resets = append(resets, i)
+		}
+	})
+	if !o.Check(len(resets) == 1, "closeStream re-arms the idle timer at %d sites, want 1", len(resets)) {
+		return
+	}
+	rs := resets[0]
+	o.AtI(rs)
+	o.Check(c.Expr(callOf(rs).Args[0]) == "p0.srv.IdleTimeout", "idle timer is re-armed with %s, want the configured idle timeout", c.Expr(callOf(rs).Args[0]))
+	bad := onlyGuards(c, rs.Block(), "+(0 == builtin.len(p0.streams))", "+(0 < p0.srv.IdleTimeout)", "+(nil != p0.idleTimer)", "-(1 != p1.state)", "-(nil == p1)", "+(nil != p1)")
+	if bad != "" {
+		// tolerate guards that merely re-state the stream's open state checked at the top of closeStream
+		if !(strings.Contains(bad, "p1.state") && !strings.Contains(bad, "p2")) {
+			o.Fail("re-arming the idle timer when the last stream closes is additionally conditional on %s: a connection whose last stream ends otherwise (reset, error) stays open forever once idle", bad)
+		}
+	}
+}
